@@ -1346,8 +1346,9 @@ class XMLSchemaBase(XsdValidator, ElementPathMixin[Union[SchemaType, XsdElement]
                             break
 
                     path_ = f"{'/'.join(e.tag for e in ancestors)}/ancestor-or-self::node()"
-                    xsd_ancestors = cast(list[XsdElement],
-                                         schema.findall(path_, namespaces)[1:])
+                    # Only element declarations (a step can also match a wildcard particle)
+                    xsd_ancestors = [e for e in schema.findall(path_, namespaces)[1:]
+                                     if isinstance(e, XsdElement)]
 
                     # Clear identity constraints counters
                     for k, e in enumerate(xsd_ancestors[k:], start=k):
